@@ -418,16 +418,17 @@ def Problem.gradLik (q : Problem) (subset : Int) (x : Array Rat) : Array Rat :=
 
 /-- `add_multiplication_with_approximate_Hessian_without_penalty(output = 0, input = ones)`: for every subset and every
     bin of it (every TOF bin) `output -= back_project( divide_and_truncate(forward_project(ones), y·n·n) )` — the data with the
-    normalisation applied twice (l.1010, l.1014).  The viewgrams are read directly: `zero_seg0_end_planes` is NOT applied here,
-    the end planes of segment 0 take part (known finding `hessian:ignores-zero-seg0-end-planes` of C05;
-    `denominator:includes-zeroed-seg0-end-planes` here). -/
+    normalisation applied twice (l.1010, l.1014); with `zero_seg0_end_planes` the forward projection of the end planes of
+    segment 0 is set to 0 before the division (repaired code, fix C08-3: before the fix the viewgrams were used as read and the
+    end planes took part). -/
 def Problem.hessOnes (q : Problem) : Array Rat :=
   let ones : Array Rat := Array.replicate q.nvox 1
-  let fmax := viewgramMax q (fun r => r.forward ones)
+  let fwd (r : Row) : Rat := if r.zeroed then 0 else r.forward ones
+  let fmax := viewgramMax q fwd
   q.rows.foldl (fun out r =>
     if r.subset < 0 || r.subset ≥ q.numSubsets then out
     else
-      let quot := divideAndTruncate (smallValueOf fmax r.vg SMALL_NUM) (r.forward ones) (r.y * r.norm * r.norm)
+      let quot := divideAndTruncate (smallValueOf fmax r.vg SMALL_NUM) (fwd r) (r.y * r.norm * r.norm)
       r.backInto (-quot) out) (Array.replicate q.nvox 0)
 
 /-- the sensitivity image (`add_subset_sensitivity` for every subset, `RPC_process_related_viewgrams_sensitivity_computation`:
